@@ -483,8 +483,16 @@ class FactMap:
                 for h in st.handlers:
                     self.facts[id(h)] = tuple(facts)
                     self._block(h.body, facts, hs)
-                self._block(st.orelse, facts, hs)
+                # what the try body asserts (top level) holds in the else clause, and after the try when every handler
+                # leaves (`try: v = int(x); assert v > 0  except ..: self._raise(..)`)
+                asserted = []
+                for b_ in st.body:
+                    if isinstance(b_, ast.Assert):
+                        asserted += atoms(b_.test, True, self.norm)
+                self._block(st.orelse, facts + asserted, hs)
                 self._block(st.finalbody, facts, hs)
+                if asserted and st.handlers and all(always_exits(h.body) for h in st.handlers):
+                    facts += asserted
             elif isinstance(st, (ast.FunctionDef, ast.AsyncFunctionDef, ast.ClassDef)):
                 pass
             elif isinstance(st, ast.Assert):
